@@ -1,7 +1,7 @@
 /-
 C09 / C10 for the whole pipeline model: differ script, XML formatter, text engine.
 
-`runFmtE false bis qn s script` runs the handlers of the formatter, each on the answer the engine model gives for its own
+`runFmtE w bis qn s script` runs the handlers of the formatter, each on the answer the engine model gives for its own
 action: for `UpdateTextIn` / `UpdateTextAfter` the answer is `diff_main` + `diff_cleanupSemantic` of the text (tail) the
 addressed node of the working tree holds at that moment against the new text - what `_make_diff_tags(node.text,
 action.text)` asks `diff_match_patch` - with any bisect oracle `bis`.  `fstate0 L fresh ft segs w` is the state
@@ -13,7 +13,10 @@ reading", "no `diff:rename` yet") are derived from `C17_each_node_changed_once` 
 `Proofs/JInv.lean` ... `JRun.lean`: a node of the working tree carries a `diff:rename` attribute, a marked text or a
 marked tail only if the patcher node it stands for was hit by such an action before.  What is still assumed is stated
 on the inputs: `L` clean with texts of at most `TEXT_MAX` = 27000 characters, `R` made of elements with fit texts of at
-most `TEXT_MAX` characters and distinct attribute names outside the `diff:` namespace, `M` a good matching (the line
+most `TEXT_MAX` characters and distinct attribute names outside the `diff:` namespace, `M` a good matching; and, when the
+formatter normalises texts (`w = true`: `normalize & WS_TEXT`, the default of the command line), every text and tail of
+the two documents in whitespace-normal form (`wsNorm t = t`: no white-space run other than a single blank, none at
+either end - then the normalisation in `_make_diff_tags` changes nothing; `ShortP w`) (the line
 mode of the engine model is proved below the surrogate range only, C16; that the texts of a differ script are texts and
 tails of right nodes is `Texts.scriptGen_texts`).
 -/
@@ -27,12 +30,12 @@ open XmlDiffModel.Acc XmlDiffModel.Rej XmlDiffModel.Along
 /-- **Accepting every change of the formatted differ script gives the patched document** - engine included. -/
 theorem C09_differ_script_engine (bis : Dmp.Bisect) (qn : QName) (cfg : Cfg) (L R : Tree) (M : List (Nat × Nat))
     (fresh : Nat) (script : List Action) (final : Tree) (ft : List Str) (segs : List (List Seg)) (w : Bool)
-    (hclean : CleanT L) (hshort : Names.AllP ShortP L) (hL : (Tree.ids L).Nodup) (hRn : (Tree.ids R).Nodup)
+    (hclean : CleanT L) (hshort : Names.AllP (ShortP w) L) (hL : (Tree.ids L).Nodup) (hRn : (Tree.ids R).Nodup)
     (hdisj : ∀ i ∈ Tree.ids L, i ∉ Tree.ids R)
     (hfL : ∀ i ∈ Tree.ids L, i < fresh) (hfR : ∀ i ∈ Tree.ids R, i < fresh) (hM : Chw.GoodMatching L R M)
-    (hR : ∀ x ∈ Tree.bfs R, (keys x.payload.attrs).Nodup ∧ XClean (fun k => isDiffKey k = false) x ∧ ShortP x.payload)
+    (hR : ∀ x ∈ Tree.bfs R, (keys x.payload.attrs).Nodup ∧ XClean (fun k => isDiffKey k = false) x ∧ ShortP w x.payload)
     (h : scriptGen qn cfg L R M fresh = .ok (script, final)) :
-    ∃ s' σ, runFmtE false bis qn (fstate0 L fresh ft segs w) script = .ok s' ∧
+    ∃ s' σ, runFmtE w bis qn (fstate0 L fresh ft segs w) script = .ok s' ∧
       acc (cln accS) s'.tree = MapId.mapId σ final ∧ MapId.InjOn σ (Tree.ids final) := by
   obtain ⟨s', σ, h1, h2, h3, _⟩ := differ_script_engine' bis qn cfg L R M fresh script final ft segs w hclean hshort hL
     hRn hdisj hfL hfR hM hR h
@@ -42,12 +45,12 @@ theorem C09_differ_script_engine (bis : Dmp.Bisect) (qn : QName) (cfg : Cfg) (L 
 tree before `finalize`) - engine included, no assumption on the run. -/
 theorem C10_differ_script_engine (bis : Dmp.Bisect) (qn : QName) (cfg : Cfg) (L R : Tree) (M : List (Nat × Nat))
     (fresh : Nat) (script : List Action) (final : Tree) (ft : List Str) (segs : List (List Seg)) (w : Bool)
-    (hclean : CleanT L) (hshort : Names.AllP ShortP L) (hL : (Tree.ids L).Nodup) (hRn : (Tree.ids R).Nodup)
+    (hclean : CleanT L) (hshort : Names.AllP (ShortP w) L) (hL : (Tree.ids L).Nodup) (hRn : (Tree.ids R).Nodup)
     (hdisj : ∀ i ∈ Tree.ids L, i ∉ Tree.ids R)
     (hfL : ∀ i ∈ Tree.ids L, i < fresh) (hfR : ∀ i ∈ Tree.ids R, i < fresh) (hM : Chw.GoodMatching L R M)
-    (hR : ∀ x ∈ Tree.bfs R, (keys x.payload.attrs).Nodup ∧ XClean (fun k => isDiffKey k = false) x ∧ ShortP x.payload)
+    (hR : ∀ x ∈ Tree.bfs R, (keys x.payload.attrs).Nodup ∧ XClean (fun k => isDiffKey k = false) x ∧ ShortP w x.payload)
     (h : scriptGen qn cfg L R M fresh = .ok (script, final)) :
-    ∃ s', runFmtE false bis qn (fstate0 L fresh ft segs w) script = .ok s' ∧ rej s'.tree = bare L := by
+    ∃ s', runFmtE w bis qn (fstate0 L fresh ft segs w) script = .ok s' ∧ rej s'.tree = bare L := by
   obtain ⟨s', _, h1, _, _, h4⟩ := differ_script_engine' bis qn cfg L R M fresh script final ft segs w hclean hshort hL
     hRn hdisj hfL hfR hM hR h
   exact ⟨s', h1, h4⟩
@@ -57,14 +60,14 @@ pairwise different along the patcher's replay, the handlers accept the script on
 view follows the patcher and the rejected view stays. -/
 theorem C09_C10_engine_run (bis : Dmp.Bisect) (qn : QName) (script : List Action) (L : Tree) (fresh : Nat)
     (ft : List Str) (segs : List (List Seg)) (w : Bool)
-    (hclean : CleanT L) (hshort : Names.AllP ShortP L) (hL : (Tree.ids L).Nodup) (hfL : ∀ i ∈ Tree.ids L, i < fresh)
-    (hst : ∀ a ∈ script, NoComment a ∧ PlainNames a ∧ TextsOK a ∧ ShortTexts a)
+    (hclean : CleanT L) (hshort : Names.AllP (ShortP w) L) (hL : (Tree.ids L).Nodup) (hfL : ∀ i ∈ Tree.ids L, i < fresh)
+    (hst : ∀ a ∈ script, NoComment a ∧ PlainNames a ∧ TextsOK a ∧ ShortTexts w a)
     (hpaths : PathsOK qn ⟨L, fresh⟩ script)
     (nR : (Once.targets Once.renSel qn ⟨L, fresh⟩ script).Nodup)
     (nT : (Once.targets Once.textSel qn ⟨L, fresh⟩ script).Nodup)
     (nA : (Once.targets Once.tailSel qn ⟨L, fresh⟩ script).Nodup)
     (p' : PState) (hp : runUniq qn ⟨L, fresh⟩ script = .ok p') :
-    ∃ s' σ, runFmtE false bis qn (fstate0 L fresh ft segs w) script = .ok s' ∧
+    ∃ s' σ, runFmtE w bis qn (fstate0 L fresh ft segs w) script = .ok s' ∧
       acc (cln accS) s'.tree = MapId.mapId σ p'.tree ∧ MapId.InjOn σ (Tree.ids p'.tree) ∧ rej s'.tree = bare L := by
   have hb : TextMark.Base (phInit [] ft) := by
     have := TextMark.base_history [] ft [] (by
@@ -76,8 +79,8 @@ theorem C09_C10_engine_run (bis : Dmp.Bisect) (qn : QName) (script : List Action
   have hrok : ROK (fstate0 L fresh ft segs w) := ⟨hL, hfL, isIns_of_clean L hclean, hb, rfl⟩
   have r0 : MapId.Rel (fun x => x) L (acc (cln accS) L) fresh fresh :=
     ⟨by rw [acc_clean L hclean, MapId.mapId_ident], fun a _ b _ e => e, hL, hfL, hfL⟩
-  obtain ⟨s', σ, h1, r, _, h4⟩ := run_E bis qn script _ ⟨htok, hb, rfl⟩ hrok L fresh (fun x => x) r0 [] [] []
-    (jall_init L hclean hshort) hst hpaths (by simpa using nR) (by simpa using nT) (by simpa using nA) p' hp
+  obtain ⟨s', σ, h1, r, _, h4⟩ := run_E w bis qn script _ ⟨htok, hb, rfl⟩ hrok L fresh (fun x => x) r0 [] [] []
+    (jall_init w L hclean hshort) hst hpaths (by simpa using nR) (by simpa using nT) (by simpa using nA) p' hp
   exact ⟨s', σ, h1, r.eq, r.inj, by rw [h4]; exact rej_clean L hclean⟩
 
 /-- **What `format` hands to `render` for a differ script has no placeholder characters** - engine included: the
@@ -86,12 +89,12 @@ handlers accept the script (C09 above), the maker state is still the one `__init
 text or tail. -/
 theorem C08_differ_script_engine (bis : Dmp.Bisect) (qn : QName) (cfg : Cfg) (L R : Tree) (M : List (Nat × Nat))
     (fresh : Nat) (script : List Action) (final : Tree) (ft : List Str) (w : Bool)
-    (hclean : CleanT L) (hshort : Names.AllP ShortP L) (hL : (Tree.ids L).Nodup) (hRn : (Tree.ids R).Nodup)
+    (hclean : CleanT L) (hshort : Names.AllP (ShortP w) L) (hL : (Tree.ids L).Nodup) (hRn : (Tree.ids R).Nodup)
     (hdisj : ∀ i ∈ Tree.ids L, i ∉ Tree.ids R)
     (hfL : ∀ i ∈ Tree.ids L, i < fresh) (hfR : ∀ i ∈ Tree.ids R, i < fresh) (hM : Chw.GoodMatching L R M)
-    (hR : ∀ x ∈ Tree.bfs R, (keys x.payload.attrs).Nodup ∧ XClean (fun k => isDiffKey k = false) x ∧ ShortP x.payload)
+    (hR : ∀ x ∈ Tree.bfs R, (keys x.payload.attrs).Nodup ∧ XClean (fun k => isDiffKey k = false) x ∧ ShortP w x.payload)
     (h : scriptGen qn cfg L R M fresh = .ok (script, final)) :
-    ∃ s', runFmtE false bis qn (fstate0 L fresh ft [] w) script = .ok s' ∧ s'.ph = phInit [] ft ∧
+    ∃ s', runFmtE w bis qn (fstate0 L fresh ft [] w) script = .ok s' ∧ s'.ph = phInit [] ft ∧
       ∃ r after, (∃ N, ∀ f, N ≤ f → undoElement f s'.ph diffElemList s'.tree = .ok (r, after)) ∧
         Undo.PlainT s'.ph r :=
   differ_script_plain bis qn cfg L R M fresh script final ft w hclean hshort hL hRn hdisj hfL hfR hM hR h
@@ -130,6 +133,20 @@ example :
     (runFmtE false (fun _ _ => none) QName.plain (fstate0 exL 20 [] [] false) twice).toOption.map
         (fun s => C17.pls (rej s.tree)) ≠ some (C17.pls (bare exL)) ∧
     Once.targets Once.textSel QName.plain ⟨exL, 20⟩ twice = [1, 1] := by
+  decide +kernel
+
+/-- `WS_TEXT` on (`w = true`): on these documents - every text in whitespace-normal form - the handlers leave the same
+tree as with `WS_TEXT` off; and why normal form is needed: for an old text with a double blank the rejected view is
+the normalised text, not the left text. -/
+example :
+    (runFmtE true (fun _ _ => none) QName.plain (fstate0 exL 20 [] [] true) exScript).toOption.map
+        (fun s => (Tree.ids s.tree, C17.pls s.tree)) =
+      (runFmtE false (fun _ _ => none) QName.plain (fstate0 exL 20 [] [] false) exScript).toOption.map
+        (fun s => (Tree.ids s.tree, C17.pls s.tree)) ∧
+    (let L2 : Tree := .node 0 (exE "a" none none) [.node 1 (exE "b" (some "two  blanks") none) []]
+     (runFmtE true (fun _ _ => none) QName.plain (fstate0 L2 20 [] [] true)
+        [.updateTextIn (exP [("a", 1), ("b", 1)]) (some "two blanks now".toList)]).toOption.map
+          (fun s => C17.pls (rej s.tree)) ≠ some (C17.pls (bare L2))) := by
   decide +kernel
 
 end XmlDiffModel
